@@ -173,6 +173,9 @@ func init() {
 		"(*sync/atomic.Bool).Load":  func(fr *frame, a []value) value { return asInt64(extAtomicTLoad(fr, a)) != 0 },
 
 		"(*strings.Builder).copyCheck": extNop,
+		"strings.Clone":                func(fr *frame, a []value) value { return a[0] },
+		"internal/stringslite.Clone":   func(fr *frame, a []value) value { return a[0] },
+		"bytes.Clone":                  nil,
 		"internal/abi.NoEscape":        func(fr *frame, a []value) value { return a[0] },
 		"internal/abi.Escape":          func(fr *frame, a []value) value { return a[0] },
 
